@@ -627,9 +627,14 @@ def kind(t, tb, deep):
 
 def shape(t, tb):
     """structural description of a failing term for the signature: principal functor and, per argument, its kind
-    (opatom = an atom that is an operator of the table; for a compound argument also the kind of ITS first argument)"""
+    (opatom = an atom that is an operator of the table; for a compound argument also the kind of ITS first argument)
+    and the kind of the leftmost leaf (lm)"""
     if t["t"] == "c" and not (t["n"] == "." and len(t["a"]) == 2):
-        return "%s/%d(%s)" % (t["n"].replace(",", "comma").replace(" ", "_"), len(t["a"]), ",".join(kind(x, tb, True) for x in t["a"]))
+        lm = t
+        while lm["t"] == "c" and not (lm["n"] == "." and len(lm["a"]) == 2):
+            lm = lm["a"][0]
+        return "%s/%d(%s) lm=%s" % (t["n"].replace(",", "comma").replace(" ", "_"), len(t["a"]),
+                                    ",".join(kind(x, tb, True) for x in t["a"]), kind(lm, tb, False))
     return kind(t, tb, False)
 
 
